@@ -1060,9 +1060,10 @@ func (c *cluster) handleNodeAction(nodeAction nodeAction) error {
 	c.logger.Printf("wait for jobResult")
 	jobResult := <-j.result
 
-	// Make sure j.run() didn't return an error.
-	if eg.Wait() != nil {
-		return errors.Wrap(err, "running job")
+	// A run that could not distribute its instructions has reported the
+	// job as aborted on j.result; it is completed as such below.
+	if err := eg.Wait(); err != nil {
+		c.logger.Printf("running job error: err=%s", err)
 	}
 
 	c.logger.Printf("received jobResult: %s", jobResult)
